@@ -553,6 +553,8 @@ Settle(st, gv, n, eng, proc) ==
 RECURSIVE SyncDrain(_, _, _, _)
 SyncDrain(st, gv, n, eng) ==
   IF Failed(st) \/ st.queue = <<>> THEN st
+  \* completed / failed while draining: what is still queued is dropped
+  ELSE IF st.status # "running" THEN [st EXCEPT !.queue = <<>>]
   ELSE IF n > D.maxIter
        THEN Log([st EXCEPT !.queue = <<>>], L("cut_drain", "", "", {}))
   ELSE LET ev == Head(st.queue)
@@ -565,13 +567,17 @@ SyncDrain(st, gv, n, eng) ==
 (*   valid when no step suspends (no timers/services with live tasks, no     *)
 (*   async actions); SCAsync refines this with suspension points             *)
 
-RECURSIVE AsyncLoop(_, _)
-AsyncLoop(st, gv) ==
+\* `fuel` bounds the number of events one public step may dequeue: the harness
+\* aborts a real run at the same count, and both sides then report "Diverged".
+\* (A finite chain longer than D.fuel is reported the same way on both sides.)
+RECURSIVE AsyncLoop(_, _, _)
+AsyncLoop(st, gv, fuel) ==
   IF st.status # "running" \/ st.queue = <<>> THEN st
+  ELSE IF fuel = 0 THEN [st EXCEPT !.err = <<"Diverged">>]
   ELSE LET ev == Head(st.queue)
            st0 == [st EXCEPT !.queue = Tail(@)]
        IN IF st0.rd > D.maxIter
-          THEN AsyncLoop(Log([st0 EXCEPT !.rd = 0], L("cut_raise", ev.type, "", {})), gv)
+          THEN AsyncLoop(Log([st0 EXCEPT !.rd = 0], L("cut_raise", "", "", {})), gv, fuel - 1)
           ELSE LET st1 == Log(st0, L("event", ev.type, "", {}))
                    before == st1.rd
                    st2 == ProcessEvent(st1, ev, gv, "async", TRUE)
@@ -581,7 +587,7 @@ AsyncLoop(st, gv) ==
                    st4 == IF Failed(st3)
                           THEN Log([st3 EXCEPT !.err = NoErr], L("loop_error", st3.err[1], "", {}))
                           ELSE IF st3.rd = before THEN [st3 EXCEPT !.rd = 0] ELSE st3
-               IN AsyncLoop(st4, gv)
+               IN AsyncLoop(st4, gv, fuel - 1)
 
 --------------------------------------------------------------------------
 (* Public steps, as functions from a quiescent state                        *)
@@ -598,7 +604,7 @@ StartStep(st, gv, eng) ==
          s2 == Settle(s1, gv, 1, "async", FALSE)
      IN IF Failed(s2)
         THEN [s2 EXCEPT !.status = "stopped"]   \* start() re-raises after marking stopped
-        ELSE AsyncLoop(s2, gv)                   \* the loop task then drains what entry raised
+        ELSE AsyncLoop(s2, gv, D.fuel)           \* the loop task then drains what entry raised
   ELSE
      LET s0 == Log([st EXCEPT !.status = "running"], L("interp_start", "", "", {}))
          s1 == EnterL(s0, <<D.root>>, NoEv, 1, eng, TRUE)
@@ -608,7 +614,7 @@ StartStep(st, gv, eng) ==
 
 SendStep(st, evtype, gv, eng) ==
   IF eng = "async" THEN
-     AsyncLoop(Enqueue(st, PlainEv(evtype), "async"), gv)
+     AsyncLoop(Enqueue(st, PlainEv(evtype), "async"), gv, D.fuel)
   ELSE
      \* a refused send() returns before touching the queue
      IF st.status # "running" THEN Enqueue(st, PlainEv(evtype), eng)
